@@ -173,7 +173,7 @@ def gen_apply_cases(rng, n_rand):
             el, coq, label = gen_cm(rng)
             ks = [rng.choice([0.0, 1.0, dy(rng, -2, 2), dy(rng, -1, 1), 0.5]) for _ in range(4)]
             if rng.below(6) == 0:
-                ks[rng.below(4)] = rng.choice([3e38, -3e38, 1e-40, 255.0])
+                ks[rng.below(4)] = rng.choice([3e38, -3e38, 1e-40, 255.0, 3.4e38])   # non-finite texts such as 1e40 are rejected by the parser now (attribute ignored)
             prims = (el % ' result="b"') + ('<feComposite in="SourceGraphic" in2="b" operator="arithmetic" k1="%s" k2="%s" k3="%s" k4="%s"/>'
                                             % tuple(num(k) for k in ks))
             cases.append(dict(kind='arithmetic/' + label, doc=apply_doc(16, 16, prims, 'sRGB'), src='rand:%d:16:16' % seed, out='rgba',
